@@ -26,7 +26,7 @@ func init() {
 			"random and targeted length fields, inserted/deleted bytes, truncation at every offset of small streams, concatenations) and the repository's stored fuzz corpora; each executed under sampled " +
 			"(thorough: crossed) configurations packet size {auto,188,192,204,other} x reader {seekable,bufio,plain} x reads {full,1-byte,random} x API {NextPacket,NextData,alternating} x options " +
 			"{none, random skipper, observing parser, failing parser}; monitored: panics, calls until ErrNoMorePackets ≤ len(input)+64, 16 further calls, truncated-final-packet equivalence; " +
-			"plus runs of 255..131 073 (thorough 262 145) packets a skipper rejects inside one call (stage long-skip); distinct = hash(input, configuration); non-trivial = the input delivered at least one packet or datum before ending",
+			"plus runs of 255..131 073 (thorough 262 145) packets a skipper rejects inside one call (stage long-skip); distinct = hash(input, configuration); non-trivial = the input delivered at least one packet or datum before ending; the end of the stream is ErrNoMorePackets itself, an error that wraps it is reported (end-of-stream-not-the-sentinel)",
 		Assumptions: []string{"termination is judged on a logical bound (number of calls), a wall clock watchdog only covers calls that never return (then the goroutine dump must show a library frame)",
 			"explicit packet sizes ≥ 188; bufio readers with buffers from 16 bytes up"},
 		Shards:       32,
@@ -156,6 +156,9 @@ func execC03(c *mon.Ctx, stage string, idx int64, input []byte, k c03cfg, r *ran
 	c.Max("max_calls_to_eof_per_1000_input_bytes", int64(run.EOFAt*1000/(len(input)+1)))
 	if run.PostEOFBad != "" {
 		c.Violate("C03/result-after-end-of-stream:"+szc+"/"+k.reader, stage, idx, run.PostEOFBad, data)
+	}
+	if run.WrappedEOF != "" {
+		c.Violate("C03/end-of-stream-not-the-sentinel:"+szc+"/"+k.reader, stage, idx, run.WrappedEOF, data)
 	}
 	c.Case(mon.HashBytes("c03/"+cls, input), len(run.Items)-len(run.Errors()) > 0)
 	return run
